@@ -295,6 +295,25 @@ for _ in range(6):
     faces = list(pf.faces)
     out.append([fc.to_array() if hasattr(fc, 'to_array') else repr(fc) for fc in Face3D.join_coplanar_faces(faces[:2], 0.01)] if hasattr(Face3D, 'join_coplanar_faces') else 0)
     out.append(Polygon2D.group_by_overlap([a, b, Bd.make(rng, 'Polygon2D')], 0.01).__len__())
+    # the graph used by the face splitters: adjacency ORDER after editing a node with several links, and what is derived from it
+    from ladybug_geometry.network import DirectedGraphNetwork
+    from ladybug_geometry.geometry2d import Point2D
+    net = DirectedGraphNetwork.from_polygon(a, 0.01)
+    nodes = net.ordered_nodes
+    n0 = nodes[0]; nx = n0.adj_lst[0]
+    net.add_adj(n0, [nodes[2].pt, nodes[len(nodes) // 2 + 1].pt, nodes[-2].pt])
+    net.insert_node(n0, Point2D((n0.pt.x + nx.pt.x) / 2, (n0.pt.y + nx.pt.y) / 2), nx, exterior=True)
+    net.remove_adj(n0, [nodes[-2].key])
+    out.append([[m.key for m in nd.adj_lst] for nd in net.ordered_nodes])
+    try:
+        out.append([[str(m.pt) for m in cyc] for cyc in net.exterior_cycles()])
+    except Exception as e:
+        out.append(repr(type(e)))
+    out.append(str(DirectedGraphNetwork.next_exterior_node(n0)))
+    sq = Face3D.from_rectangle(8.0, 6.0)
+    from ladybug_geometry.geometry3d import LineSegment3D, Point3D
+    cuts = [LineSegment3D.from_end_points(Point3D(-1, 2, 0), Point3D(9, 3, 0)), LineSegment3D.from_end_points(Point3D(3, -1, 0), Point3D(4, 7, 0))]
+    out.append([fc.to_array() for fc in (sq.split_with_lines(cuts, 0.01) or [])])
 print(hashlib.sha1(json.dumps(out, sort_keys=True, default=str).encode()).hexdigest())
 '''
 
@@ -311,6 +330,8 @@ def hash_seed_determinism(ctx):
     ctx.count('determinism.hashseed', key=tuple(sorted(set(ds.values()))), sample=ds)
     if any(v.startswith('ERROR') for v in ds.values()):
         ctx.note('workload error: %r' % ds)
+        ctx.violation('determinism:workload_raises', 'the fixed workload (public operations on generated valid inputs) raised: %s' % (
+            [v for v in ds.values() if v.startswith('ERROR')][0][-300:],), ds)
         return
     if len(set(ds.values())) != 1:
         ctx.violation('determinism:hash_seed', 'results differ across PYTHONHASHSEED: %r' % ds, ds)
